@@ -803,7 +803,10 @@ pub fn run_c07(w: &mut W) {
         cfg.cross_kind = false;
         cfg.options = false;
         let v9 = rng.chance(1, 2);
-        let reason = rng.below(3); // 0 never defined, 1 only for the other protocol, 2 only in another parser
+        // 0 never defined, 1 only for the other protocol, 2 only in another parser,
+        // 3 only mentioned by a template record the parser rejected (IPFIX: no non-zero-length
+        //   field) or that arrived truncated (both protocols)
+        let reason = rng.below(4);
         let mut ex = Exporter::new();
         let mut sut = Sut::new(2);
         // some known templates + the withheld one
@@ -869,7 +872,22 @@ pub fn run_c07(w: &mut W) {
                 _ => {}
             }
         }
-        w.rep.count(&format!("reason.{}", ["never-defined", "other-protocol-only", "other-parser-only"][reason as usize]), 1);
+        if reason == 3 {
+            if !v9 && rng.chance(1, 2) {
+                let nf = 1 + rng.usize(3);
+                let fields: Vec<IpfixSpec> = (0..nf).map(|_| IpfixSpec { type_num: *rng.pick(&[65u16, 82, 210, 83, 94]), len: 0, enterprise: None }).collect();
+                let m = IpfixMsg { export_time: rng.b32(), seq: rng.b32(), domain: rng.b32(), sets: vec![IpfixSet::Template { records: vec![IpfixTmpl { id: wid, fields }], padding: vec![] }] };
+                sut.parse(0, &m.wire());
+                w.rep.count("rejected_template_records_sent", 1);
+            } else {
+                // the real template packet, cut inside its template record
+                let hdr = if v9 { 20 } else { 16 };
+                let cut = hdr + 5 + rng.usize(tmpl_pkt.len() - hdr - 5);
+                sut.parse(0, &tmpl_pkt[..cut]);
+                w.rep.count("truncated_template_packets_sent", 1);
+            }
+        }
+        w.rep.count(&format!("reason.{}", ["never-defined", "other-protocol-only", "other-parser-only", "rejected-or-truncated-template-only"][reason as usize]), 1);
         // the packet with the orphan data set: known data sets before/after it
         let pos = rng.below(3); // 0 first, 1 middle, 2 last
         let mk_known_v9 = |ex: &Exporter, rng: &mut Rng| -> Option<V9FlowSet> {
